@@ -162,9 +162,9 @@ func Harness_C05_ShardingColumnAssignment() {
 	}
 	_, err = BuildPlan(stmt, nil, "db", cases[k].sql, rt, sequence.NewSequenceManager(), nil)
 	if cases[k].touches {
-		vs.Assert(err != nil, "C05/assignment-to-the-sharding-column-is-rejected:"+cases[k].sql)
+		vs.Assert(err != nil, "C05/assignment-to-the-sharding-column-is-rejected:"+strings.Replace(cases[k].sql, " ", "_", -1))
 	} else {
-		vs.Assert(err == nil, "C05/other-assignments-are-accepted:"+cases[k].sql)
+		vs.Assert(err == nil, "C05/other-assignments-are-accepted:"+strings.Replace(cases[k].sql, " ", "_", -1))
 	}
 	vs.Cover("C05/assignment-done")
 }
